@@ -111,6 +111,20 @@ def history(rng):
             steps.append(("snip", "import \"%s\" as im%d;\nprint(im%d);\n%s" % (mod, k, k, "print(im%d.bump());\n" % k if mod == "good" else "")))
             failing = mod in ("throws", "broken", "missing")
         elif c < 96:
+            if r.chance(60):
+                # globals of every kind of value (aliases of built-in functions and classes, bound natives, closures, fibers,
+                # modules, instances) must all be gone after the reset, and the built-ins themselves must be back even if
+                # the program had rebound them
+                kinds = [("al_print%d" % k, "print"), ("al_type%d" % k, "type"), ("al_from%d" % k, "String.from"), ("al_push%d" % k, "[1].push"),
+                         ("al_cls%d" % k, "Vec"), ("al_err%d" % k, "TypeError"), ("al_lam%d" % k, "|a| a"), ("al_fib%d" % k, "Fiber.new(|| 1)"),
+                         ("al_inst%d" % k, "TypeError.new(\"ctx\")"), ("al_num%d" % k, "7"), ("al_nil%d" % k, "nil")]
+                picked = r.sample(kinds, r.range(3, 7))
+                rebind = r.choice(["", "type = 5;", "var print2 = print; String = nil;", "clock = nil;", "Error = 1;"])
+                steps.append(("snip", "".join("var %s = %s;\n" % kv for kv in picked) + "import \"good\" as al_mod%d;\n%s\nprint(\"aliases defined\");\n" % (k, rebind)))
+                steps.append(("reset",))
+                steps.append(("snip", "".join("try { print(type(%s)); } catch e { print(type(e)); print(e.context); }\n" % n for n, _ in picked) +
+                              "try { print(al_mod%d); } catch e { print(type(e)); }\nprint([type(type), type(String), type(clock), type(Error), type(print)]);\n" % k))
+                defined = []
             steps.append(("reset",))
             steps.append(("snip", "".join("try { print(%s); } catch e { print(type(e)); }\n" % d for d in defined[-4:]) + "print(Error); print(StopIter);\n"))
             steps.append(("snip", PROBE))
